@@ -24,6 +24,8 @@ type Gen struct {
 	KM   int
 	done map[string]bool
 	hs   []string // harness names
+
+	HookPassThrough bool // GenSchema hooks of the program return their argument (corpus support code)
 }
 
 func (g *Gen) p(format string, a ...interface{}) {
@@ -42,6 +44,9 @@ func (g *Gen) once(key string) bool {
 }
 
 var customUnderlying = map[string]string{"StrCustom": "string", "BoolCustom": "bool", "StringCustom": "string"}
+
+// typeExprFor: the attr.Type expression of a configured time / duration type; P00 configures a
+// constructor (UseRFC3339Time()).
 
 // tfv qualifies a TF value/type name from the configuration (TimeValue -> SQ+TimeValue).
 func (g *Gen) tfv(n string) string {
